@@ -190,6 +190,25 @@ namespace hv
         struct SumDeltaG { static constexpr auto name = "ho_sum_delta_g"; static P compose(Wiring &w, Port<TSS<Int>> s) { return wire<NSumDelta<1>>(w, s); } };
         struct NegSumDeltaG { static constexpr auto name = "ho_neg_sum_delta_g"; static P compose(Wiring &w, Port<TSS<Int>> s) { return wire<NSumDelta<-1>>(w, s); } };
         struct SumValueG { static constexpr auto name = "ho_sum_value_g"; static P compose(Wiring &w, Port<TSS<Int>> s) { return wire<NSumValue>(w, s); } };
+        // a branch whose held input is a structural (non-peered) bundle: its child links are bound one after another when the
+        // branch is activated - in a cycle later than the producers' ticks - and the node logs the whole view it then reads
+        template <int K>
+        struct NBProbe
+        {
+            static constexpr auto name = K == 1 ? "ho_bprobe_1" : "ho_bprobe_2";
+            static void eval(In<"p", B2h, InputValidity::Unchecked> p, DateTime now, Out<TS<Int>> out)
+            {
+                Line("BP").i("br", K).i("t", off(now)).raw("i", cv::describe(p.base())).emit();
+                long long v = K * 1000;
+                auto a = p.template field<"a">();
+                auto b = p.template field<"b">();
+                if (a.valid()) v += static_cast<long long>(a.value());
+                if (b.valid()) v += static_cast<long long>(b.value());
+                out.set(Int{v});
+            }
+        };
+        struct BProbe1G { static constexpr auto name = "ho_bprobe1_g"; static P compose(Wiring &w, Port<B2h> p) { return wire<NBProbe<1>>(w, p); } };
+        struct BProbe2G { static constexpr auto name = "ho_bprobe2_g"; static P compose(Wiring &w, Port<B2h> p) { return wire<NBProbe<2>>(w, p); } };
         struct TickAfterG { static constexpr auto name = "ho_tick_after_g"; static P compose(Wiring &w, P ts) { return wire<NTickAfter>(w, ts); } };
         struct FailOnG { static constexpr auto name = "ho_fail_on_g"; static P compose(Wiring &w, P ts) { return wire<NFailOn>(w, ts); } };
         struct PulseFailG { static constexpr auto name = "ho_pulse_fail_g"; static P compose(Wiring &w, P ts) { return wire<NFailOn>(w, wire<NPulse>(w, ts)); } };
@@ -287,6 +306,8 @@ namespace hv
             if (f == "FailOn") return fn<FailOnG>();
             if (f == "PulseFail") return fn<PulseFailG>();
             if (f == "Add2") return fn<Add2G>();
+            if (f == "BProbe1") return fn<BProbe1G>();
+            if (f == "BProbe2") return fn<BProbe2G>();
             if (f == "SumDelta") return fn<SumDeltaG>();
             if (f == "NegSumDelta") return fn<NegSumDeltaG>();
             if (f == "SumValue") return fn<SumValueG>();
@@ -423,6 +444,15 @@ namespace hv
                         if (st.has("default")) sc.default_branch = fn_by_name(st.get("default"));
                         if (st.geti("reload", 0)) sc.reload_on_ticked = true;
                         Port<TS<Int>> key{w, src(st, "key")};
+                        if (st.has("ba"))
+                        {   // switch <id> key=<w> cases=1:BProbe1,2:BProbe2 ba=<TS writer> bb=<TS writer>: the held input is a structural
+                            // bundle {a: ba, b: bb} (no producing node of its own: the branch's input binds each field separately)
+                            WiringPortRef sb = WiringPortRef::structural_source(ts_type<B2h>(), {src(st, "ba"), src(st, "bb")});
+                            Port<void> so = wire<stdlib::switch_>(w, key, std::move(sc), Port<B2h>{w, sb});
+                            ps.ref[id]   = so.as<TS<Int>>().erased();
+                            ps.shape[id] = "TS";
+                            continue;
+                        }
                         if (st.has("s"))
                         {   // a set-valued held input (branches: SumDelta / NegSumDelta / SumValue)
                             Port<void> so = wire<stdlib::switch_>(w, key, std::move(sc), Port<TSS<Int>>{w, src(st, "s")});
